@@ -72,14 +72,27 @@ _etype_counter = [0]
 _LABELLED = []
 
 
-def _labelled_event():
+def _labelled_event(direct=False):
     if not _LABELLED:
         from pydsol.core.simevent import SimEvent
 
         class LabelledEvent(SimEvent):
             """model-defined SimEvent subclass"""
+
+        class DirectEvent(SimEvent):
+            """model-defined SimEvent subclass with its own execute(): whatever the handler raises comes out as it is"""
+
+            def execute(self):
+                from pydsol.core.utils import DSOLError
+                try:
+                    self._method(**self._kwargs)
+                except Exception:
+                    raise               # RuntimeError, KeyError, ... leave execute() unwrapped
+                except BaseException as e:
+                    raise DSOLError(f"handler aborted: {type(e).__name__}")     # (as the library's own execute() does)
         _LABELLED.append(LabelledEvent)
-    return _LABELLED[0]
+        _LABELLED.append(DirectEvent)
+    return _LABELLED[1] if direct else _LABELLED[0]
 
 
 def _stat_event_types(kind):
@@ -285,7 +298,7 @@ class Harness:
                         ev = sim.schedule_event_now(model, "h", a[1], tag=a[2])
                     elif k == "ev":
                         # a user-defined event class (public API: schedule_event takes any SimEventInterface)
-                        ev = sim.schedule_event(_labelled_event()(time_value(self.prog, a[1]), model, "h", a[2], tag=a[3]))
+                        ev = sim.schedule_event(_labelled_event(direct=sum(map(ord, a[3])) % 2 == 0)(time_value(self.prog, a[1]), model, "h", a[2], tag=a[3]))
                     else:
                         v = BAD_VALUES[a[1]]
                         if a[1] == "past":
@@ -466,6 +479,17 @@ class Harness:
                 prod = EventProducer()
                 self.producers[key] = prod
                 st = cls(key, "stat " + key, sim, producer=prod, event_type=self.etypes[key])
+                if sp.get("two_types"):
+                    # the statistic also listens to a second producer with another event type (listen_to may be called
+                    # several times): observations then arrive through both
+                    k2 = key + "#2"
+                    if k2 not in self.etypes:
+                        _etype_counter[0] += 1
+                        self.etypes[k2] = EventType(f"verif_data_{_etype_counter[0]}")
+                    self.producers[k2] = EventProducer()
+                    st.listen_to(self.producers[k2], self.etypes[k2])
+                    self.obs_toggle = getattr(self, "obs_toggle", {})
+                    self.obs_toggle[key] = 0
             else:
                 st = cls(key, "stat " + key, sim)
             self.stats[key] = st
@@ -513,7 +537,11 @@ class Harness:
         self.timeline.append(("o", key, num(t), a[2:]) if mark is None else ("o", key, num(t), a[2:], mark))
         if spec.get("via") == "event":
             payload = a[2] if kind != "wtally" else (a[2], a[3])
-            self.producers[key].fire(self.etypes[key], payload)
+            src = key
+            if spec.get("two_types"):
+                self.obs_toggle[key] += 1
+                src = key if self.obs_toggle[key] % 2 else key + "#2"
+            self.producers[src].fire(self.etypes[src], payload)
         elif kind == "wtally":
             st.register(a[2], a[3])
         elif kind in ("plaincounter", "plaintally"):
